@@ -219,6 +219,12 @@ func check(repo, verif, id, tier string) (code int) {
 	for _, r := range p.Renames {
 		c.Notes = append(c.Notes, "renamed variable mapped back to the name the rules were written against: "+r)
 	}
+	c.Notes = append(c.Notes, fmt.Sprintf("SSA normalisations applied program-wide before the rules ran: %d defer-spilled result cells folded back (eng/despill.go), %d directly-invoked bound method values analysed as the direct call (eng/debound.go), %d function(s) with named results analysed without the defer they gained since the rules were written (eng/nodefer.go)%s", eng.Despilled, eng.Debound, len(eng.NoDeferNormalised), func() string {
+		if len(eng.NoDeferNormalised) == 0 {
+			return ""
+		}
+		return ": " + strings.Join(eng.NoDeferNormalised, ", ")
+	}()))
 	var extra map[string]any
 	if tier == "thorough" {
 		extra = map[string]any{}
